@@ -24,6 +24,27 @@
 //                       and the theorems about the old code stay tied to libc under ASan  -> as `p`
 //   "-" as <hex> is the empty string.
 //
+// The environment of a request.  A request may start with "@<k> ": the request is then executed with a C++ locale
+// whose numpunct facet groups digits (no system locale is needed; the facet is built here), and the classic locale is
+// restored afterwards:
+//   k = 1..4    std::locale::global(L_k) - what an application does with std::locale::global(std::locale("")) - so that
+//               every stream constructed afterwards (inside ToString(), and the user's stream of `o`/`O`) carries it
+//   k = 11..14  the global locale stays classic; only the user's stream of `o`/`O` is imbue()d with L_(k-10)
+//   L_1: grouping "\3", thousands ',', decimal point '.'     L_2: grouping "\3", thousands '.', decimal point ','
+//   L_3: grouping "\1", thousands ' ', decimal point ';'     L_4: grouping "\2\3", thousands '\'', decimal point '.'
+//
+// DataVersion objects as a receiver gets them: <w> is 8 hex digits = the 4 wire bytes reserved, major, minor (little
+// endian), copied into a DataVersion with memcpy (the constructors always produce reserved = 0xFF).
+//   C <w> <w>           the six operators on two such objects                -> six 0/1 digits, as `c`
+//   W <w>               v = the object; text = ToString(v); otext = operator<<; back = FromString(text) (exact-size block)
+//                         -> "<hex text> <hex otext> <back as ok:M:m | invalid> <IsValid(v)> <seven 0/1 digits>"
+//                       digits: back==v, v==back, !(back!=v), !(back<v), !(back>v), back<=v, back>=v
+//   r <Mlo> <Mhi> <mlo> <mhi> <reserved>   as `r`, every v built from wire bytes with that reserved byte; a version
+//                       is also bad when back == v (operator==) is false or back != v is true
+//   O <major> <minor> <flags>   operator<< into a user's stream on which <flags> were set before:
+//                       hex | oct | showpos | showbase-hex | upper-hex | w9r | w9l | w9i (width 9, fill '*', adjustfield)
+//                       | w3r | boolalpha-sci (flags that must not matter at all)     -> "<hex of the text>"
+//
 // Every request is executed in a forked child (one child per run of requests; a new child is forked after a
 // child dies).  A child that dies (sanitizer report, signal) while executing request i makes the answer of
 // request i "fault"; all other answers are unaffected.  The sanitizer's report goes to stderr.
@@ -35,6 +56,8 @@
 #include <cstdio>
 #include <cstdlib>
 #include <cstring>
+#include <iomanip>
+#include <locale>
 #include <sstream>
 #include <string>
 #include <vector>
@@ -103,6 +126,73 @@ static DataVersion FromStringBeforeFix(const char* str) {
   return version;
 }
 
+// A numpunct facet of our own: digit grouping without any system locale.
+class Punct : public std::numpunct<char> {
+ public:
+  Punct(const char* grouping, char sep, char point) : grouping_(grouping), sep_(sep), point_(point) {}
+
+ protected:
+  char do_thousands_sep() const override { return sep_; }
+  char do_decimal_point() const override { return point_; }
+  std::string do_grouping() const override { return grouping_; }
+
+ private:
+  std::string grouping_;
+  char sep_, point_;
+};
+
+static std::locale grouping_locale(int k) {
+  switch (k) {
+    case 1: return std::locale(std::locale::classic(), new Punct("\3", ',', '.'));
+    case 2: return std::locale(std::locale::classic(), new Punct("\3", '.', ','));
+    case 3: return std::locale(std::locale::classic(), new Punct("\1", ' ', ';'));
+    case 4: return std::locale(std::locale::classic(), new Punct("\2\3", '\'', '.'));
+    default: return std::locale::classic();
+  }
+}
+
+// The environment of the current request (see the head of the file).
+static int g_env = 0;
+
+static void prepare_user_stream(std::ostream& os) {
+  if (g_env >= 11) os.imbue(grouping_locale(g_env - 10));
+}
+
+static DataVersion from_wire(const unsigned char* w) {
+  DataVersion v;
+  static_assert(sizeof(DataVersion) == 4, "DataVersion is 4 wire bytes");
+  memcpy((void*)&v, w, 4);
+  return v;
+}
+
+static bool unhex_wire(const std::string& h, unsigned char* w) {
+  std::string b;
+  if (h.size() != 8) return false;
+  std::string tmp;
+  for (size_t i = 0; i < 8; i += 2) {
+    int v = 0;
+    for (int k = 0; k < 2; ++k) {
+      char c = h[i + k];
+      int d = (c >= '0' && c <= '9') ? c - '0' : (c >= 'a' && c <= 'f') ? c - 'a' + 10 : -1;
+      if (d < 0) return false;
+      v = v * 16 + d;
+    }
+    w[i / 2] = (unsigned char)v;
+  }
+  return true;
+}
+
+static std::string six(const DataVersion& a, const DataVersion& b) {
+  std::string r;
+  r += (a == b) ? '1' : '0';
+  r += (a != b) ? '1' : '0';
+  r += (a < b) ? '1' : '0';
+  r += (a > b) ? '1' : '0';
+  r += (a <= b) ? '1' : '0';
+  r += (a >= b) ? '1' : '0';
+  return r;
+}
+
 // The string in a heap block of exactly len + 1 bytes.
 static char* exact_copy(const std::string& bytes) {
   char* p = (char*)malloc(bytes.size() + 1);
@@ -118,8 +208,9 @@ static DataVersion parse_exact(const std::string& bytes, bool before_fix = false
   return v;
 }
 
-static std::string answer(const std::string& line) {
+static std::string answer1(const std::string& line) {
   std::istringstream is(line);
+  is.imbue(std::locale::classic());  // the harness's own reading of the request must not depend on the environment under test
   std::string op;
   is >> op;
   if (op == "p" || op == "s" || op == "q") {
@@ -146,34 +237,86 @@ static std::string answer(const std::string& line) {
     if (op == "v") return v.IsValid() ? "1" : "0";
     if (op == "f") return hex(ToString(v));
     std::ostringstream os;
+    prepare_user_stream(os);
     os << v;
     return hex(os.str());
+  } else if (op == "O") {
+    unsigned M = 0, m = 0;
+    std::string fl;
+    if (!(is >> M >> m >> fl) || M > 255 || m > 65535) return "bad-args";
+    DataVersion v((uint8_t)M, (uint16_t)m);
+    std::ostringstream os;
+    prepare_user_stream(os);
+    if (fl == "hex") os << std::hex;
+    else if (fl == "oct") os << std::oct;
+    else if (fl == "showpos") os << std::showpos;
+    else if (fl == "showbase-hex") os << std::showbase << std::hex;
+    else if (fl == "upper-hex") os << std::uppercase << std::hex;
+    else if (fl == "boolalpha-sci") os << std::boolalpha << std::scientific << std::showpoint << std::setprecision(3);
+    else if (fl == "w9r") os << std::setfill('*') << std::right << std::setw(9);
+    else if (fl == "w9l") os << std::setfill('*') << std::left << std::setw(9);
+    else if (fl == "w9i") os << std::setfill('*') << std::internal << std::setw(9);
+    else if (fl == "w3r") os << std::setfill('*') << std::right << std::setw(3);
+    else return "bad-args";
+    os << v;
+    return hex(os.str());
+  } else if (op == "C") {
+    std::string ha, hb;
+    unsigned char wa[4], wb[4];
+    if (!(is >> ha >> hb) || !unhex_wire(ha, wa) || !unhex_wire(hb, wb)) return "bad-args";
+    return six(from_wire(wa), from_wire(wb));
+  } else if (op == "W") {
+    std::string hw;
+    unsigned char w[4];
+    if (!(is >> hw) || !unhex_wire(hw, w)) return "bad-args";
+    DataVersion v = from_wire(w);
+    std::string text = ToString(v);
+    std::ostringstream os;
+    prepare_user_stream(os);
+    os << v;
+    DataVersion back = parse_exact(text);
+    std::string r = hex(text) + " " + hex(os.str()) + " ";
+    r += back.IsValid() ? "ok:" + std::to_string((int)back.major_version) + ":" + std::to_string((int)back.minor_version)
+                        : std::string("invalid");
+    r += v.IsValid() ? " 1 " : " 0 ";
+    r += (back == v) ? '1' : '0';
+    r += (v == back) ? '1' : '0';
+    r += !(back != v) ? '1' : '0';
+    r += !(back < v) ? '1' : '0';
+    r += !(back > v) ? '1' : '0';
+    r += (back <= v) ? '1' : '0';
+    r += (back >= v) ? '1' : '0';
+    return r;
   } else if (op == "c") {
     unsigned M1, m1, M2, m2;
     if (!(is >> M1 >> m1 >> M2 >> m2) || M1 > 255 || M2 > 255 || m1 > 65535 || m2 > 65535) return "bad-args";
     DataVersion a((uint8_t)M1, (uint16_t)m1), b((uint8_t)M2, (uint16_t)m2);
-    std::string r;
-    r += (a == b) ? '1' : '0';
-    r += (a != b) ? '1' : '0';
-    r += (a < b) ? '1' : '0';
-    r += (a > b) ? '1' : '0';
-    r += (a <= b) ? '1' : '0';
-    r += (a >= b) ? '1' : '0';
-    return r;
+    return six(a, b);
   } else if (op == "r") {
     unsigned Mlo, Mhi, mlo, mhi;
     if (!(is >> Mlo >> Mhi >> mlo >> mhi) || Mhi > 255 || mhi > 65535) return "bad-args";
+    int reserved = -1;  // -1: built by the constructor
+    if (is >> reserved) {
+      if (reserved < 0 || reserved > 255) return "bad-args";
+    } else {
+      reserved = -1;
+    }
     uint64_t h = 14695981039346656037ull, count = 0, bad = 0;
     std::string first = "-";
     for (unsigned M = Mlo; M <= Mhi; ++M) {
       for (unsigned m = mlo; m <= mhi; ++m) {
         DataVersion v((uint8_t)M, (uint16_t)m);
+        if (reserved >= 0) {
+          unsigned char w[4] = {(unsigned char)reserved, (unsigned char)M, (unsigned char)(m & 255), (unsigned char)(m >> 8)};
+          v = from_wire(w);
+        }
         std::string text = ToString(v);
         for (unsigned char c : text) h = (h ^ c) * 1099511628211ull;
         h = (h ^ (unsigned char)'\n') * 1099511628211ull;
         DataVersion back = parse_exact(text);
         bool ok = v.IsValid() ? (back.major_version == v.major_version && back.minor_version == v.minor_version)
                               : !back.IsValid();
+        if (reserved >= 0 && (!(back == v) || (back != v))) ok = false;
         ++count;
         if (!ok) {
           if (!bad) first = std::to_string(M) + "." + std::to_string(m);
@@ -184,6 +327,21 @@ static std::string answer(const std::string& line) {
     return std::to_string(count) + " " + std::to_string(bad) + " " + std::to_string(h) + " " + first;
   }
   return "bad-op";
+}
+
+static std::string answer(const std::string& line) {
+  g_env = 0;
+  if (line.empty() || line[0] != '@') return answer1(line);
+  size_t sp = line.find(' ');
+  if (sp == std::string::npos) return "bad-args";
+  int k = atoi(line.c_str() + 1);
+  if (!((k >= 1 && k <= 4) || (k >= 11 && k <= 14))) return "bad-args";
+  g_env = k;
+  if (k <= 4) std::locale::global(grouping_locale(k));
+  std::string a = answer1(line.substr(sp + 1));
+  std::locale::global(std::locale::classic());
+  g_env = 0;
+  return a;
 }
 
 struct Shared {
